@@ -426,7 +426,19 @@ def kf_ancestor_inside_suffix(case, failure):
     return bool(case.get("sa")) and failure.startswith("forward:") and failure.endswith(KF_MARK)
 
 
+_stats_memo = [None, None]
+
+
 def _pair_stats(case):
+    # nontrivial() and classify() are called one after the other on the same case object
+    if _stats_memo[0] is case:
+        return _stats_memo[1]
+    r = _pair_stats_(case)
+    _stats_memo[0], _stats_memo[1] = case, r
+    return r
+
+
+def _pair_stats_(case):
     pu = B.cparse(case["u"])
     if pu is None:
         return None
